@@ -43,6 +43,9 @@ def run(ctx: Ctx):
     from .common import rebuild_forwards_settings
 
     rebuild_forwards_settings(ctx, "rebuild-settings", "cube.py", "Cube", ("population",))
+    from .common import axis_role_lint
+
+    axis_role_lint(ctx, "axis-roles", entries=("population_proportions", "population_counts", "population_counts_moe", "population_std_err"))
 
 
 def scaling(ctx: Ctx):
